@@ -1,2 +1,87 @@
-(* Properties/C19.v — placeholder until Proofs/Sched*.v land. *)
-From XV Require Import Base.Str Model.Context Model.Sched.
+(* Properties/C19.v — a shared binding context is safe under concurrent use.
+   Statements only; proofs in Proofs/Sched*.v.
+
+   Model: Model/Sched.v.  Every method of XmlContext that parsers and serializers
+   use (build, fetch, find_types, find_type, find_subclass, build_xsi_cache) is cut
+   into atomic actions — one marked source line of context.py each: a dict
+   membership test, read, store or clear, a list append or read, an attribute read
+   or store.  `conc_run w st progs sched`: the threads `progs` (call-level scripts
+   of Model/Context.v, expanded to actions) start on the shared state `st`, perform
+   their actions in the order `sched` says (a list of thread numbers, any length),
+   then run to completion; the result of every thread.  `solo_run w st s`: s alone
+   on st.  The world (classes, len(sys.modules)) does not change during a run. *)
+From Coq Require Import String NArith List Bool.
+From XV Require Import Base.Str Base.Eqb Model.Context Model.Sched
+  Proofs.ContextWitness Proofs.SchedSafe Proofs.SchedWitness.
+Import ListNotations.
+Open Scope N_scope.
+
+(* The property at full strength — for every state st a context can be in, all
+   thread sets and all schedules:
+     conc_run w st progs sched = map (solo_run w st) progs
+   is FALSE of the faithful model (and of the implementation).  On a cold context two
+   threads that both look a class up by its qualified name: *)
+Theorem C19_cold_index_race_refuted :
+  exists w progs sched i,
+    nth_error (conc_run w s0 progs sched) i <> nth_error (map (solo_run w s0) progs) i
+    /\ conc_guard w [] progs = true        (* the requests are ns-closed: only "warm" fails *)
+    /\ warm_b w s0 = false.
+Proof.
+  exists W, [ftPA; ftPA], race_sched, 1%nat. destruct cold_index_race as [H [G Wm]].
+  split; [|split; assumption]. cbn [map nth_error]. exact H.
+Qed.
+Print Assumptions C19_cold_index_race_refuted.
+
+(* what the parser makes of it: "No class found matching root" *)
+Theorem C19_cold_index_race_parse :
+  conc_run W s0 [parsePA; parsePA] race_sched
+  = [ROk (tree_of_value vPA); RErr e_parser (q "No class found matching root: {urn:a}PA")]
+  /\ solo_run W s0 parsePA = ROk (tree_of_value vPA).
+Proof. exact race_parse. Qed.
+Print Assumptions C19_cold_index_race_parse.
+
+(* second refutation: the concurrent form of the cache-key defect of C14 (warm context) *)
+Theorem C19_ns_cache_key_concurrent_refuted :
+  exists w st progs sched i,
+    nth_error (conc_run w st progs sched) i <> nth_error (map (solo_run w st) progs) i
+    /\ warm_b w st = true /\ conc_guard w (s_cache st) progs = false.
+Proof.
+  exists W, warm1, ns_threads, ns_sched, 1%nat. destruct ns_race as [H [Wm G]].
+  split; [|split; assumption]. cbn [map nth_error ns_threads]. exact H.
+Qed.
+Print Assumptions C19_ns_cache_key_concurrent_refuted.
+
+(* The guarded theorem.  Guards (computable, Model/Sched.v):
+     warm_b w st       build_xsi_cache has run for the current world: sys_modules is
+                       len(sys.modules) and the index holds what it would build
+     conc_guard w (s_cache st) progs =
+       world_ok w && cache_known w cache && index_short w
+       && consistent (cache ++ requests of all threads)
+                       every class is requested — by any thread, or earlier — under parent
+                       namespaces that give one and the same metadata.
+   For ANY number of threads and ANY schedule every call returns what the stateless
+   reference semantics says, which is also what it returns when it runs alone: *)
+Theorem C19_warm_context_safe :
+  forall w st progs sched,
+  warm_b w st = true -> conc_guard w (s_cache st) progs = true ->
+  conc_run w st progs sched = map (ideal_run_c w) progs
+  /\ map (solo_run w st) progs = map (ideal_run_c w) progs.
+Proof. exact warm_context_safe. Qed.
+Print Assumptions C19_warm_context_safe.
+
+Theorem C19_warm_context_solo :
+  forall w st progs sched,
+  warm_b w st = true -> conc_guard w (s_cache st) progs = true ->
+  conc_run w st progs sched = map (solo_run w st) progs.
+Proof.
+  intros w st progs sched Hw Hg. destruct (warm_context_safe w st progs sched Hw Hg) as [H1 H2]. congruence.
+Qed.
+Print Assumptions C19_warm_context_solo.
+
+(* the guard is not vacuous: eight threads (serialize, parse with and without a target
+   class, find_type, fetch with xsi:type, a class that cannot be built, a truncated
+   document) on a context warmed by one lookup *)
+Theorem C19_guard_nonvacuous :
+  warm_b W warm1 = true /\ conc_guard W (s_cache warm1) good_threads = true.
+Proof. split; [exact warm1_is_warm|exact conc_guard_nonvacuous]. Qed.
+Print Assumptions C19_guard_nonvacuous.
